@@ -62,6 +62,22 @@ def model_check(wd, tier, mc_stats=None, variants=True):
         stats.append(st)
         if not r["ok"]:
             problems.append("V2Store %s: rc=%s after %ss %s (see %s)" % (st["instance"], r.get("rc"), r["seconds"], r["errors"][:2] or r["fatal"], r["out"]))
+    # induction step: every store within the id bounds that satisfies RowsInv, one call (any history length; see SpecInd)
+    ind_plans = [dict(maxp=3, maxt=1, maxe=2, names=("a",))] if tier == "quick" else \
+        [dict(maxp=3, maxt=2, maxe=2, names=("a", "b")), dict(maxp=2, maxt=2, maxe=3, names=("a", "b")), dict(maxp=4, maxt=1, maxe=1, names=("a",))]
+    for i, kw in enumerate(ind_plans):
+        r = run_ind(wd, "v2ind_%d" % i, consts("current", **kw), workers=8 if tier == "quick" else 16, timeout=600 if tier == "quick" else 5400,
+                    xmx="8g" if tier == "quick" else "24g")
+        st = {"instance": "V2Store!SpecInd(%s)" % ",".join("%s=%s" % kv for kv in sorted(kw.items())), "states": r["states"] or 0,
+              "transitions": r["generated"] or 0, "depth": r["depth"], "seconds": r["seconds"], "ok": r["ok"]}
+        stats.append(st)
+        if not r["ok"]:
+            problems.append("V2Store induction %s: rc=%s after %ss %s (see %s)" % (st["instance"], r.get("rc"), r["seconds"], r["errors"][:2] or r["fatal"], r["out"]))
+    if variants:
+        # sensitivity of the induction step: the pre-repair sibling-link shape must break it
+        r = run_ind(wd, "v2ind_variant", consts("set-parent-keeps-next", maxp=3, maxt=1, maxe=1, names=("a",)), timeout=900)
+        if not (r["errors"] and not r["fatal"]):
+            problems.append("V2Store induction with variant set-parent-keeps-next was NOT reported by TLC, see %s" % r["out"])
     sens = {}
     for variant in (VARIANTS if variants else ()):
         # (the track id and the entity id of a membership only differ after the second track was added first: 5 calls)
@@ -101,6 +117,17 @@ def run_v1(wd, tag, c, workers=8, timeout=1500, xmx="12g"):
     return r
 
 
+def run_ind_v1(wd, tag, c, workers=8, timeout=2400, xmx="12g"):
+    cfg = vlib.cfg_text("SpecInd", dict(c, MaxCalls=1), invariants=["RowsInv", "NoTxnAtRest", "GhostAgree", "LibInv"], properties=["Refines"])
+    t0 = time.time()
+    rc, outp = vlib.run_tlc("V1Store", cfg, wd, tag, workers=workers, timeout=timeout, xmx=xmx)
+    r = vlib.parse_tlc(outp)
+    r["seconds"] = round(time.time() - t0, 1)
+    r["out"] = outp
+    r["rc"] = rc
+    return r
+
+
 def model_check_v1(wd, tier, mc_stats=None, variants=True):
     problems, stats = [], []
     plans = [dict(maxc=3, maxt=2, calls=4 if tier == "quick" else 5)]
@@ -126,6 +153,10 @@ def model_check_v1(wd, tier, mc_stats=None, variants=True):
 
 if __name__ == "__main__":
     wd = vlib.workdir("mcv2store")
+    if len(sys.argv) > 2 and sys.argv[2] == "ind1":
+        r = run_ind_v1(wd, "v1ind", consts_v1("current", maxc=int(sys.argv[3]), maxt=int(sys.argv[4]), names=tuple(sys.argv[5])), workers=int(os.environ.get("W", "8")))
+        print({k: r[k] for k in r if k != "out"}, r["out"])
+        sys.exit(0)
     if len(sys.argv) > 2 and sys.argv[2] == "ind":
         kw = dict(maxp=int(sys.argv[3]), maxt=int(sys.argv[4]), maxe=int(sys.argv[5]), names=tuple(sys.argv[6]))
         r = run_ind(wd, "v2ind", consts("current", **kw), workers=int(os.environ.get("W", "8")))
